@@ -1,6 +1,7 @@
 import IstioModel.Common.Wire
 import IstioModel.C16.JoinDriver
 import IstioModel.C16.ExactDriver
+import IstioModel.C16.MiscDriver
 
 /-!
 Driver part for the stream `mem`: the in-memory config store `pilot/pkg/config/memory`
@@ -91,6 +92,8 @@ structure TopState where
   m : MState := {}
   x : XState := {}
   jx : JXState := {}
+  mi : MiscState := {}
+  ix : IdxcState := {}
 
 def stepTop (t : TopState) (toks : List String) : TopState × String :=
   match toks with
@@ -98,6 +101,12 @@ def stepTop (t : TopState) (toks : List String) : TopState × String :=
     if stream.startsWith "mem" then
       let r := stepM {} toks
       ({ mode := 1, m := r.1 }, r.2)
+    else if stream.startsWith "misc" then
+      let r := stepMisc {} toks
+      ({ mode := 4, mi := r.1 }, r.2)
+    else if stream.startsWith "idxc" then
+      let r := stepIdxc {} toks
+      ({ mode := 5, ix := r.1 }, r.2)
     else if stream.startsWith "joinx" then
       let r := stepJX {} toks
       ({ mode := 3, jx := r.1 }, r.2)
@@ -117,6 +126,12 @@ def stepTop (t : TopState) (toks : List String) : TopState × String :=
     else if t.mode == 3 then
       let r := stepJX t.jx toks
       ({ t with jx := r.1 }, r.2)
+    else if t.mode == 4 then
+      let r := stepMisc t.mi toks
+      ({ t with mi := r.1 }, r.2)
+    else if t.mode == 5 then
+      let r := stepIdxc t.ix toks
+      ({ t with ix := r.1 }, r.2)
     else
       let r := stepAll t.a toks
       ({ t with a := r.1 }, r.2)
